@@ -369,8 +369,24 @@ def call_forward(ns, case, la, lo, ell, prj):
             out = out + ('projection-object-changed',)
         return out
     _, shape = core.delivery_of(case)
-    return core.shaped_call(ns.convert.geo2grid, ['lat', 'lon', 'zone', 'ellipsoid', 'prj'],
-                            [la, lo, core.rep_value(case.get('rep'), case['zone']), ell, prj], shape, _defaults_left_out(ns, case, shape, ell, prj))
+    r = core.case_rnd(case)
+    C = ns.constants
+
+    def twin():
+        # another conversion in progress elsewhere: other position, other ellipsoid / projection
+        if r.random() < 0.5:
+            ns.convert.geo2grid(r.uniform(-79, 83), r.uniform(-179, 179), 0, r.choice([C.grs80, C.ans, C.wgs84]))
+        else:
+            ns.convert.grid2geo(r.randint(1, 60), r.uniform(2e5, 8e5), r.uniform(1e6, 9e6), r.choice(['south', 'north']), r.choice([C.grs80, C.ans]))
+    return core.maybe_interleaved(_CTX[0], case, twin, lambda: core.shaped_call(
+        ns.convert.geo2grid, ['lat', 'lon', 'zone', 'ellipsoid', 'prj'],
+        [la, lo, core.rep_value(case.get('rep'), case['zone']), ell, prj], shape, _defaults_left_out(ns, case, shape, ell, prj)), kmax=70) \
+        if _CTX[0] is not None else core.shaped_call(
+        ns.convert.geo2grid, ['lat', 'lon', 'zone', 'ellipsoid', 'prj'],
+        [la, lo, core.rep_value(case.get('rep'), case['zone']), ell, prj], shape, _defaults_left_out(ns, case, shape, ell, prj))
+
+
+_CTX = [None]      # the running shard's context (set by the judges), for the interleaving counters
 
 
 def _defaults_left_out(ns, case, shape, ell, prj, hemi=None):
@@ -383,9 +399,20 @@ def _defaults_left_out(ns, case, shape, ell, prj, hemi=None):
 
 def call_inverse(ns, case, zone, east, north, hemi, ell, prj, tag='inverse'):
     _, shape = core.delivery_of([case, tag])
-    return core.shaped_call(ns.convert.grid2geo, ['zone', 'east', 'north', 'hemisphere', 'ellipsoid', 'prj'],
-                            list(core.rep_values(case.get('rep'), zone, east, north)) + [core.fresh_str(hemi), ell, prj], shape,
-                            _defaults_left_out(ns, case, shape, ell, prj, hemi))
+    r = core.case_rnd([case, tag])
+    C = ns.constants
+
+    def twin():
+        if r.random() < 0.5:
+            ns.convert.geo2grid(r.uniform(-79, 83), r.uniform(-179, 179), 0, r.choice([C.grs80, C.ans, C.wgs84]))
+        else:
+            ns.convert.grid2geo(r.randint(1, 60), r.uniform(2e5, 8e5), r.uniform(1e6, 9e6), r.choice(['south', 'north']), r.choice([C.grs80, C.ans]))
+
+    def call():
+        return core.shaped_call(ns.convert.grid2geo, ['zone', 'east', 'north', 'hemisphere', 'ellipsoid', 'prj'],
+                                list(core.rep_values(case.get('rep'), zone, east, north)) + [core.fresh_str(hemi), ell, prj], shape,
+                                _defaults_left_out(ns, case, shape, ell, prj, hemi))
+    return core.maybe_interleaved(_CTX[0], [case, tag], twin, call, kmax=90) if _CTX[0] is not None else call()
 
 
 # ---------------------------------------------------------------------------------------------
@@ -397,6 +424,16 @@ def gen_unjudged_calls(rnd):
     for _ in range(rnd.choice([1, 1, 2])):
         ell = rnd.choice(['grs80', 'ans', 'wgs84', 'intl24', [6378200.0, 299.5]])
         prj = rnd.choice(['utm', 'utm', 'isg', [400000.0, 0.0, 0.9999, 3.0, -178.5]])
+        if rnd.random() < 0.3:
+            # a valid call on a figure far from the Earth's (a sphere in all but name, a planet-like flattening, a unit
+            # sphere): right or wrong, it must leave nothing behind for the judged call that follows
+            ell = rnd.choice([[6371008.8, 1e15], [6371000.0, 1e9], [6378137.0, 50.0], [1.0, 298.257], [3396190.0, 169.8]])
+            if rnd.random() < 0.5:
+                out.append({'fn': 'geo2grid', 'args': [rnd.uniform(-79, 83), rnd.uniform(-179, 179), 0], 'ell': ell, 'prj': 'utm'})
+            else:
+                out.append({'fn': 'grid2geo', 'args': [rnd.randint(1, 60), rnd.uniform(4e5, 6e5), rnd.uniform(0.0, 1.0) * (1e7 if ell[0] > 6e6 else 1.5), 'south'],
+                            'ell': ell, 'prj': 'utm'})
+            continue
         if rnd.random() < 0.5:
             lat = rnd.choice([85.0, -80.5, 90.0, float('nan'), 'x', rnd.uniform(-80, 84)])
             lon = rnd.choice([181.0, -180.5, 360.0, float('nan'), rnd.uniform(-180, 180), rnd.uniform(140, 155)])
@@ -420,6 +457,7 @@ def judge_forward(ns, ctx, case, aspects):
     """aspects: subset of {'F' (C01 exactness/zone/hemisphere), 'K' (C10 psf/conv of forward),
     'RT' (C02 geo->grid->geo), 'KI' (C10 inverse psf/conv and forward/inverse agreement)}.
     Returns the library result (or None)."""
+    _CTX[0] = ctx
     run_unjudged_calls(ns, ctx, case)
     ell = ell_obj(ns, case['ell'])
     prj = prj_obj(ns, case['prj'])
@@ -555,6 +593,7 @@ def judge_forward(ns, ctx, case, aspects):
 def judge_grid(ns, ctx, case, aspects):
     """Grid-lattice case.  aspects: 'I' (C02 inverse vs oracle + round trip + mirror + stand-alone),
     'KI' (C10 psf/conv of the inverse)."""
+    _CTX[0] = ctx
     run_unjudged_calls(ns, ctx, case)
     ell = ell_obj(ns, case['ell'])
     prj = prj_obj(ns, case['prj'])
@@ -865,3 +904,19 @@ def run_standalone_rows(ns, ctx, rows4):
         if not ctx.ratio('C02.standalone-batch', max(dlat, dlon), 1e-10 + 3e-13):
             ctx.violation('standalone-batch-differs', rc, {'batch_output_hp': o[1:3], 'denotes_deg': vals, 'library': [r[4], r[5]]})
 
+
+def regime_run(rnd):
+    """One judged case preceded by a long run of valid conversions in ONE regime (positions in their own zone on one ellipsoid,
+    as a bulk conversion makes them); the judged call is of another regime (an explicit zone 23..30 degrees away, perhaps
+    another ellipsoid).  State that adapts to the recent history (a series length, a tolerance, a 'typical' zone) shows on the
+    judged call; the run travels with the case (`before`), so a replay repeats it."""
+    ell = rnd.choice(['grs80', 'grs80', 'wgs84', 'ans'])
+    n = rnd.choice([70, 100, 140])
+    lat0, lon0 = rnd.uniform(-60, 60), rnd.uniform(-170, 170)
+    run = [{'fn': 'geo2grid', 'args': [lat0 + rnd.uniform(-3, 3), lon0 + rnd.uniform(-2.5, 2.5), 0], 'ell': ell, 'prj': 'utm'}
+           for _ in range(n)]
+    far = rnd.randint(1, 60)
+    cm = central_meridian('utm', far)
+    lon = (cm + rnd.choice([-1, 1]) * rnd.uniform(23.0, 29.9) + 180.0) % 360.0 - 180.0
+    return {'mode': 'geo', 'ell': rnd.choice([ell, 'intl24', [6378388.0, 297.0]]), 'prj': 'utm', 'lat': rnd.uniform(-75, 75), 'lon': lon,
+            'zone': far, 'argt': 'float', 'api': 'geo2grid', 'kind': 'after-regime-run', 'before': run}
